@@ -351,8 +351,10 @@ func sacramento(rainfall, pet data.ND1Float64,
 						//            if( percfw > tiny(percfw) ) then
 						ratlp := 1. - alzfpc/alzfpm
 						ratls := 1. - alzfsc/alzfsm
-						percs := math.Min(alzfsm-alzfsc,
-							percfw*(1.-hpl*(ratlp+ratlp)/(ratlp+ratls)))
+						// share of the percolation that goes to the primary store: never more than all of it
+						// (otherwise water is taken OUT of the supplemental store, which can end up below zero)
+						fracp := math.Min(hpl*(ratlp+ratlp)/(ratlp+ratls), 1.)
+						percs := math.Min(alzfsm-alzfsc, percfw*(1.-fracp))
 						alzfsc = alzfsc + percs
 						//             Check for spill from supplemental to primary
 						if alzfsc > alzfsm {
